@@ -119,6 +119,10 @@ fn targets(tier: Tier) -> Vec<Target> {
     for (sn, size) in [("marker", EncSize::HeaderNone), ("size", EncSize::HeaderSome(txt.len() as u64)), ("skip", EncSize::Skip)] {
         t.push(enc_t(&format!("lzma_compress {} bytes [{}]", txt.len(), sn), Fmt::Lzma, size, txt.clone()));
     }
+    // incompressible data: bytes leave the range encoder in groups (a cached byte plus a run of pending 0xFF bytes)
+    let rnd: Vec<u8> = (0..tier.pick(2000u32, 6000u32)).map(|i| (i.wrapping_mul(2654435761).rotate_left(7) ^ (i >> 3)) as u8).collect();
+    t.push(enc_t(&format!("lzma_compress {} pseudo-random bytes [marker]", rnd.len()), Fmt::Lzma, EncSize::HeaderNone, rnd.clone()));
+    t.push(enc_t(&format!("lzma_compress {} pseudo-random bytes [size]", rnd.len()), Fmt::Lzma, EncSize::HeaderSome(rnd.len() as u64), rnd.clone()));
     t.push(enc_t("lzma_compress empty input", Fmt::Lzma, EncSize::HeaderNone, vec![]));
     t.push(enc_t("lzma_compress 1 byte", Fmt::Lzma, EncSize::HeaderSome(1), vec![0xFF]));
     t.push(enc_t("lzma2_compress empty input", Fmt::Lzma2, EncSize::Skip, vec![]));
@@ -135,6 +139,16 @@ fn targets(tier: Tier) -> Vec<Target> {
     let mut ops: Vec<SOp> = file.chunks(7).map(|c| SOp::WriteAll(Hex(c.to_vec()))).collect();
     ops.push(SOp::Finish);
     t.push(Target { label: format!("Stream {} bytes in 7-byte writes", big), base: Case::Stream { opts: Opts::default(), sk: Sk::default(), ops }, must_flush: true });
+    // output that is an exact multiple of the dictionary size (the last window flush happens inside write), and a stream
+    // that allows incomplete input (finish does not validate the end): after a failed write, finish must not succeed
+    {
+        let e2 = enc::encode(3, 0, 2, 4096, &grow(8192));
+        let f2 = enc::lzma_file(3, 0, 2, 4096, Some(8192), &e2.payload);
+        let mut ops: Vec<SOp> = f2.chunks(13).map(|c| SOp::WriteAll(Hex(c.to_vec()))).collect();
+        ops.push(SOp::Finish);
+        t.push(Target { label: "Stream 8192 bytes (= 2 x dictionary) in 13-byte writes".into(), base: Case::Stream { opts: Opts::default(), sk: Sk::default(), ops: ops.clone() }, must_flush: true });
+        t.push(Target { label: "Stream 8192 bytes (= 2 x dictionary) in 13-byte writes, allow_incomplete".into(), base: Case::Stream { opts: Opts { allow_incomplete: true, ..Opts::default() }, sk: Sk::default(), ops }, must_flush: true });
+    }
     // other piece sizes: which symbol is decoded from the staging buffer (and so which code path meets the failing
     // window flush) depends on where the piece boundaries fall
     for piece in tier.pick(vec![11usize, 19, 64], vec![2usize, 3, 5, 11, 13, 19, 64, 100]) {
